@@ -281,6 +281,15 @@ def step (st : St) (line : String) : St × String :=
           else if isData then s!"fail {dataClass s}"
           else s!"fail {if nulOct s then "nul-octal" else "error-mismatch"}"
         (st, s!"{head} {gs} ## {v}")
+  | ["jsonenc", h] =>
+    -- serde_json::to_string(&s), then through a data site, then what the JSON codec decodes
+    match strOfHex h with
+    | none => (st, "bad-op")
+    | some s =>
+      let enc := jsonStrEncode s
+      let back := (jsDecodeStringLiteral (emitLit P G .asyncData enc)).bind jsonStrDecode
+      let v := if back == some s then "ok" else s!"fail {dataClass enc}"
+      (st, s!"{hexOfStr enc} {match back with | some b => hexOfStr b | none => "none"} ## {v}")
   | ["js", h] =>
     -- browser twin only: value of a string literal given as source text
     match strOfHex h with
